@@ -9,6 +9,8 @@
                       insertion from the corrected flat state              C11_gen_root (full)
      gen_flat       : the flat state afterwards = the corrected flat state  C11_gen_flat (full)
      gen_mismatch   : assembled root <> expected -> error                   C11_gen_mismatch (full)
+     totality       : decodable accounts, non-empty live values, right root -> nil; any other root ->
+                      exactly the mismatch error                C11_gen_total, C11_gen_total_mismatch (full)
      partition_order_irrelevant : every interleaving of the partitions' writes gives the
                       database of the sequential run; a partition's run is independent of
                       the other partitions' writes   C11_any_schedule, C11_partition_reads_local (full)
@@ -16,7 +18,8 @@
                       C11_gen_nodes_path (full, path scheme, store level: the trie-node key space is
                       exactly the canonical node set, every node once, nothing else);
                       C11_gen_node_writes (both schemes, write level: puts = canonical nodes + at
-                      most one orphan, which is deleted afterwards); C11_builder_emits_exact (the
+                      most one orphan, which is deleted afterwards); C11_gen_nodes_hash (hash scheme,
+                      store level, collision-free H); C11_builder_emits_exact (the
                       stack-trie callback receives exactly the canonical node set of the trie built)
    [corrected flat state] = storage of non-existent accounts removed, every account's
    root replaced by the root of its actual storage (stale entries re-encoded in slim form,
@@ -24,7 +27,7 @@
    The component theorems (builder, fold, branch, erasure) are kept: C11_gen_root is
    their composition with the merge walk and Canon.v's canon_unique. *)
 From Coq Require Import Permutation.
-From GV Require Import Lib.Tactics Lib.Interleave Trie.Hex Trie.Node Trie.Ops Trie.Hash Trie.OpsProofs Trie.Canon Trie.Stack Trie.StackProofs Trie.ProofProofs Trie.Commit Trie.CommitTracer Trie.Generate Trie.GenerateProofs Trie.GenerateAssemble Trie.GenerateAssemble2 Trie.GenerateSched Trie.GenerateWalk Trie.GenerateWalk2 Trie.GenerateRoot Trie.GenerateRoot2 Trie.GenerateRoot3 Trie.GenerateFlat2 Trie.GenerateDisjoint2 Trie.GenerateLocal2 Trie.GenerateNodes Trie.GenerateNodes4 Trie.GenerateNodes5 Trie.GenerateNodes6 Trie.GenerateNodes9 Trie.GenerateNodes10 Trie.GenerateNodes11 Trie.GenerateNodes12 Trie.GenerateExample Trie.GenerateExample2.
+From GV Require Import Lib.Tactics Lib.Interleave Trie.Hex Trie.Node Trie.Ops Trie.Hash Trie.OpsProofs Trie.Canon Trie.Stack Trie.StackProofs Trie.ProofProofs Trie.Commit Trie.CommitTracer Trie.Generate Trie.GenerateProofs Trie.GenerateAssemble Trie.GenerateAssemble2 Trie.GenerateSched Trie.GenerateWalk Trie.GenerateWalk2 Trie.GenerateRoot Trie.GenerateRoot2 Trie.GenerateRoot3 Trie.GenerateFlat2 Trie.GenerateDisjoint2 Trie.GenerateLocal2 Trie.GenerateNodes Trie.GenerateNodes4 Trie.GenerateNodes5 Trie.GenerateNodes6 Trie.GenerateNodes9 Trie.GenerateNodes10 Trie.GenerateNodes11 Trie.GenerateNodes12 Trie.GenerateNodes13 Trie.GenerateTotal2 Trie.GenerateSlim Trie.GenerateSlim2 Trie.GenerateExample Trie.GenerateExample2.
 Local Open Scope N_scope.
 
 (* the callback-instrumented stack trie of the model computes exactly what the
@@ -171,6 +174,46 @@ Theorem C11_gen_flat : forall H, (forall x, length (H x) = 32%nat) ->
 Proof. exact gen_flat. Qed.
 Print Assumptions C11_gen_flat.
 
+(* TOTALITY, the converse of C11_gen_root: on a well-formed flat state in which every
+   account entry decodes ([decodable]) and every slot stored under an existing account
+   has a non-empty value ([live_values]), GenerateTrie called with the root of the
+   corrected state returns nil: no partition fails (no decode error, no
+   "non-ascending key order", no "unexpected nibble", no panic), assembleRoot does
+   not fail, and the roots agree ... *)
+Theorem C11_gen_total : forall H, (forall x, length (H x) = 32%nat) ->
+  forall sc db, wf_db db -> small_state H db -> decodable H db -> live_values db ->
+    exists st, fst (generate H sc (state_root H db) db) = GOk st.
+Proof. exact gen_total. Qed.
+Print Assumptions C11_gen_total.
+
+(* ... and called with any other root it reports exactly the mismatch *)
+Theorem C11_gen_total_mismatch : forall H, (forall x, length (H x) = 32%nat) ->
+  forall sc expected db, wf_db db -> small_state H db -> decodable H db -> live_values db ->
+    expected <> state_root H db -> fst (generate H sc expected db) = GErr GMismatch.
+Proof. exact gen_total_mismatch. Qed.
+Print Assumptions C11_gen_total_mismatch.
+
+(* the slim round trip: FullAccount (SlimAccountRLP a) = a for every Go StateAccount
+   (uint64 nonce, uint256 balance, 32-byte root, non-empty code hash < 2^32 bytes) *)
+Theorem C11_slim_round_trip : forall H, (forall x, length (H x) = 32%nat) ->
+  forall a, account_ok a -> full_account H (slim_rlp H a) = Some a.
+Proof. exact slim_round_trip. Qed.
+Print Assumptions C11_slim_round_trip.
+
+(* hence after a successful run the flat account key space has the same keys and every
+   entry decodes to the original account with its storage root replaced by the root
+   of its actual storage (entries are byte strings shorter than 2^32) *)
+Theorem C11_gen_flat_decodes : forall H, (forall x, length (H x) = 32%nat) ->
+  forall sc expected db st, wf_db db ->
+    Forall (fun kv => Lib.Bytes.bytesb (snd kv) = true /\ Lib.Bytes.lenN (snd kv) < 2 ^ 32) (g_accts db) ->
+    fst (generate H sc expected db) = GOk st ->
+    Forall2 (fun kv0 kv => fst kv = fst kv0 /\
+               exists acc, full_account H (snd kv0) = Some acc /\
+                           full_account H (snd kv) = Some (corrected H (g_stor db) (fst kv0) acc))
+            (g_accts db) (g_accts (snd (generate H sc expected db))).
+Proof. exact gen_flat_decodes. Qed.
+Print Assumptions C11_gen_flat_decodes.
+
 (* gen_nodes_path.  (i) The builder: everything the onTrieNode callback receives
    while ascending equal-length keys are fed and Hash() is called is, as a
    multiset, exactly the canonical node set of the trie built ([nodes_of H [] t]:
@@ -199,7 +242,10 @@ Theorem C11_gen_node_writes : forall H, (forall x, length (H x) = 32%nat) ->
       ndels dw = map fst orphan /\
       (sc = PathScheme -> forall x, In x orphan ->
          (exists path, fst x = 65 :: path) /\
-         ~ In (fst x) (map fst (nk H sc zero_hash (nodes_of H [] (state_trie H db))))).
+         ~ In (fst x) (map fst (nk H sc zero_hash (nodes_of H [] (state_trie H db))))) /\
+      (exists rs ws, run_partitions H sc db partitions = GOk rs /\
+         assemble_root H sc (map r_root rs) = GOk (expected, ws) /\
+         pw ++ dw = concat (map r_ws rs) ++ ws).
 Proof. exact gen_node_writes. Qed.
 Print Assumptions C11_gen_node_writes.
 
@@ -215,6 +261,22 @@ Theorem C11_gen_nodes_path : forall H, (forall x, length (H x) = 32%nat) ->
     sorted (g_nodes (snd (generate H PathScheme expected db))).
 Proof. exact gen_nodes_path. Qed.
 Print Assumptions C11_gen_nodes_path.
+
+(* (iv) hash scheme, store level, for a collision-free H: starting without trie nodes,
+   a key holds a blob afterwards iff (key, blob) is a canonical node keyed by its hash
+   and key is not the hash of the (at most one) orphan that rawdb.DeleteTrieNode
+   removed BY HASH - i.e. the store is exactly the canonical node set unless a
+   canonical node has the very hash of the deleted orphan. *)
+Theorem C11_gen_nodes_hash : forall (H : list N -> list N), (forall x, length (H x) = 32%nat) ->
+  (forall a b : list N, H a = H b -> a = b) ->
+  forall expected db st, wf_db db -> small_state H db -> g_nodes db = [] ->
+    fst (generate H HashScheme expected db) = GOk st ->
+    exists orphan, (length orphan <= 1)%nat /\ (forall x, In x orphan -> fst x = H (snd x)) /\
+      forall key blob,
+        am_get key (g_nodes (snd (generate H HashScheme expected db))) = Some blob <->
+        (In (key, blob) (spec_nodes H HashScheme db) /\ ~ In key (map fst orphan)).
+Proof. exact gen_nodes_hash. Qed.
+Print Assumptions C11_gen_nodes_hash.
 
 (* schedules, discharged for the write lists generate_partition really produces:
    writes of different partitions commute (path scheme: provided no account has
@@ -257,5 +319,6 @@ Print Assumptions C11_other_partition_writes.
    ordinary insertion, fixes the flat state and deletes the orphan at [3]; it meets
    the hypotheses of C11_gen_root / C11_gen_flat *)
 Example C11_nonvacuous : wf_db ex_db /\ small_state toy_hash ex_db /\
-  (g_nodes ex_db = [] /\ ~ In zero_hash (map fst (g_accts ex_db))) /\ ex_check = true.
-Proof. exact (conj ex_wf (conj ex_small (conj ex_nozero ex_check_true))). Qed.
+  (g_nodes ex_db = [] /\ ~ In zero_hash (map fst (g_accts ex_db))) /\
+  (decodable toy_hash ex_db /\ live_values ex_db) /\ ex_check = true.
+Proof. exact (conj ex_wf (conj ex_small (conj ex_nozero (conj ex_total_hyps ex_check_true)))). Qed.
